@@ -37,10 +37,10 @@ m = dict(
                baseline_off_cmd='cd /repo && cargo test --workspace --no-fail-fast --offline',
                source_commits=[], add_only=True),
     engines=[dict(name='chessfacts', path='engine/chessfacts', serves_properties=[c['property_id'] for c in checks],
-                  kind_free_text='rustc_private driver (RUSTC_WORKSPACE_WRAPPER) emitting MIR/ADT/const facts as JSON'),
+                  kind_free_text='rustc_private driver (RUSTC_WORKSPACE_WRAPPER) emitting MIR/ADT/const facts as JSON; configurations default, bmi2 (-C target-feature=+bmi2) and nodebug (-C debug-assertions=off)'),
              dict(name='sa', path='sa', serves_properties=[c['property_id'] for c in checks],
                   kind_free_text='Python static-analysis library and per-property rule modules'),
-             dict(name='witness', path='witness', serves_properties=['C02', 'C07', 'C10', 'C19'],
+             dict(name='witness', path='witness', serves_properties=['C01', 'C02', 'C03', 'C05', 'C07', 'C08', 'C10', 'C13', 'C14', 'C18', 'C19'],
                   kind_free_text='compile_fail doc-test witnesses with compiling twins (thorough tier)')],
     checks=checks,
     not_applicable=na,
